@@ -143,7 +143,7 @@ def qUnion (bits : Nat) (p : Layout) (which : Nat) : String :=
   let d := intoRaw bits B p
   let w := if which = 1 then unionFromFirst d else unionFromSecond d
   join [ "st=ok", lay "alloc" (allocLayoutBoxNew bits p), lay "dealloc" (arcInnerLayout bits p).1,
-         rel "deref" (derefAddr bits B p), rel "bits" w, kv "low" (w % 2),
+         rel "deref" (derefAddr bits B p), kv "sov" p.size, rel "bits" w, kv "low" (w % 2),
          kv "first" (if isFirst w then 1 else 0), rel "borrow" (unionBorrow w).2,
          kv "var" (if (unionBorrow w).1 then 1 else 2) ]
 
